@@ -77,7 +77,7 @@ def cases(rng, tier):
             for f in forms:
                 out.append({"op": "endpoint", "endpoint": ep, "header": h, "form": f})
     # histories on ONE server: registry changes between requests (secret rotation, method change, deletion)
-    for how in ("basic", "post", "none"):
+    for how in ("basic", "post", "none", "jwt"):
         out.append({"op": "history", "how": how})
     # histories of client assertions on ONE server (jti store): replay, other jti, other client, clock
     for i in range(40 if tier == "quick" else 600):
@@ -87,7 +87,9 @@ def cases(rng, tier):
         for mut in ["none", "iss", "sub", "aud", "aud-list", "aud-superstring", "exp-past", "exp-missing", "jti-missing", "iss-missing", "sub-missing", "aud-missing", "bad-sig", "alg-none",
                     "unknown-client", "other-clients-key", "type-wrong", "type-missing", "replay", "nbf-future", "iat-future", "exp-within-leeway", "not-registered-method",
                     # the assertion names a kid the client has not registered: the integrator's key resolver answers None; the forger ships its own key in a jwk header
-                    "unknown-kid-resolver-none", "unknown-kid-own-jwk"]:
+                    "unknown-kid-resolver-none", "unknown-kid-own-jwk",
+                    # a valid assertion at a grant whose permitted-method list does not contain the JWT method (the method is registered on the server for another grant)
+                    "method-not-permitted-by-grant"]:
             out.append({"op": "assertion", "kind": kind, "mut": mut})
     return out
 
@@ -294,9 +296,22 @@ def impl_endpoint(c, store, srv):
 
 def impl_history(c, store, srv):
     how = c["how"]
-    cid = {"basic": "basic", "post": "post", "none": "pub"}[how]
+    cid = {"basic": "basic", "post": "post", "none": "pub", "jwt": "jwtc"}[how]
+    n = [0]
     def attempt(secret, client_id=None):
         client_id = client_id or cid
+        if how == "jwt":
+            # client_secret_jwt on the ONE long-lived authentication object of the server: a fresh assertion (new jti) signed with `secret`
+            n[0] += 1
+            a = jwt.encode({"alg": "HS256"}, {"iss": client_id, "sub": client_id, "aud": ms.TOKEN_URL, "exp": CLOCK() + 300, "iat": CLOCK(), "jti": f"h{n[0]}"}, secret.encode())
+            saved = ms.ClientCredentialsGrant.TOKEN_ENDPOINT_AUTH_METHODS
+            ms.ClientCredentialsGrant.TOKEN_ENDPOINT_AUTH_METHODS = ["client_secret_basic", "client_assertion_jwt"]
+            try:
+                r = srv.create_token_response(Req("POST", ms.TOKEN_URL, {"grant_type": "client_credentials", "client_assertion": a.decode() if isinstance(a, bytes) else a,
+                                                                          "client_assertion_type": "urn:ietf:params:oauth:client-assertion-type:jwt-bearer"}, {}))
+            finally:
+                ms.ClientCredentialsGrant.TOKEN_ENDPOINT_AUTH_METHODS = saved
+            return (r.body if isinstance(r.body, dict) else {}).get("error")
         if how == "basic":
             req = Req("POST", ms.TOKEN_URL, {"grant_type": "refresh_token", "refresh_token": "nope"}, {"Authorization": "Basic " + b64(f"{client_id}:{secret}".encode())})
         elif how == "post":
@@ -310,12 +325,13 @@ def impl_history(c, store, srv):
     old = store.clients[cid].client_secret
     steps = [attempt(old)]
     if how != "none":
-        store.clients[cid] = Client(cid, "rotated-secret", ["https://c/cb"], "a b", ms.ALL_GRANT_TYPES, ms.ALL_RESPONSE_TYPES, store.clients[cid].token_endpoint_auth_method)
-        steps += [attempt(old), attempt("rotated-secret")]
+        rot = "rotated-secret" if how != "jwt" else "rotated-secret-rotated-secret-rotated"
+        store.clients[cid] = Client(cid, rot, ["https://c/cb"], "a b", ms.ALL_GRANT_TYPES, ms.ALL_RESPONSE_TYPES, store.clients[cid].token_endpoint_auth_method)
+        steps += [attempt(old), attempt(rot)]
     store.clients[cid] = Client(cid, store.clients[cid].client_secret, ["https://c/cb"], "a b", ms.ALL_GRANT_TYPES, ms.ALL_RESPONSE_TYPES, "client_secret_post" if how != "post" else "client_secret_basic")
     steps.append(attempt(store.clients[cid].client_secret))      # method no longer registered for the client
     del store.clients[cid]
-    steps.append(attempt("rotated-secret" if how != "none" else ""))   # client deleted
+    steps.append(attempt(("rotated-secret" if how != "jwt" else "rotated-secret-rotated-secret-rotated") if how != "none" else ""))   # client deleted
     return {"steps": steps}
 
 
@@ -370,7 +386,7 @@ def impl_assertion(c, store, srv):
     form = {"grant_type": "client_credentials", "client_assertion": tok}
     if atype:
         form["client_assertion_type"] = atype
-    srv_methods = ["client_secret_basic", "client_assertion_jwt"]
+    srv_methods = ["client_secret_basic", "client_assertion_jwt"] if mut != "method-not-permitted-by-grant" else ["client_secret_basic"]
     ms.ClientCredentialsGrant.TOKEN_ENDPOINT_AUTH_METHODS = srv_methods
     try:
         outs = []
